@@ -88,6 +88,7 @@ func (c *keyCodec) reverse() {
 		c.keys[i], c.keys[j] = c.keys[j], c.keys[i]
 		c.layers[i], c.layers[j] = c.layers[j], c.layers[i]
 	}
+	c.idx, c.jidx = nil, nil
 }
 
 func canonKey(k interface{}) string {
@@ -96,6 +97,15 @@ func canonKey(k interface{}) string {
 		return "b:" + string(v)
 	default:
 		return fmt.Sprintf("%T:%v", k, k)
+	}
+}
+
+// warm builds the lookup tables now. Drivers that use one codec from several goroutines call it before starting them: the
+// tables are then only read (no lock: a lock here would order the goroutines and could hide a race of the library).
+func (c *keyCodec) warm() {
+	if len(c.keys) > 0 {
+		c.Rank(c.keys[0])
+		c.RankFromJSON([]byte("null"))
 	}
 }
 
